@@ -19,7 +19,8 @@ ZOK(r, c, w) ==
   LET n == Len(w)  S == SumSeq(w)  Q == SumSq(w)
       num == (n * c - S) * (n * c - S) * (n - 1)
       den == n * (n * Q - S * S)
-  IN /\ (n * c - S > 0 => r >= 0) /\ (n * c - S < 0 => r <= 0) /\ (n * c - S = 0 => r = 0)
+  IN /\ AbsQ(r) <= 400              \* |z| <= (n - 1) / sqrt(n) < 2.3 for windows up to 7; also keeps the products below within 32 bits
+     /\ (n * c - S > 0 => r >= 0) /\ (n * c - S < 0 => r <= 0) /\ (n * c - S = 0 => r = 0)
      /\ AbsQ(r * r * den - 10000 * num) <= (AbsQ(r) + 1) * den
 HasSpread(w) == Len(w) >= 2 /\ Len(w) * SumSq(w) - SumSeq(w) * SumSeq(w) > 0
 
